@@ -155,6 +155,15 @@ CompactPreservesSemantics(t) ==
        /\ CEU(g.root, g, CompactProfile(g, Uniform)) = EU(t, RawProfile(t, Uniform))
        /\ CEU(g.root, g, CompactProfile(g, Skewed)) = EU(t, RawProfile(t, Skewed))
 
+\* the count the API reports (num_infosets): the multi-action information sets of both players, each once - the
+\* same number as the declarative count of Game.tla
+NumInfosetsOf(g) == Len(g.multi[1]) + Len(g.multi[2])
+InfosetCountMatches(t) ==
+  LET g == Build(t)
+  IN (g.err = "none" /\ InClass(t)) =>
+       /\ NumInfosetsOf(g) = NumInfosets(t)
+       /\ \A p \in 1..2 : {g.multi[p][i].name : i \in 1..Len(g.multi[p])} = InfoNames(t, p)
+
 \* previous-infoset links form a forest per player and point to earlier infosets
 PrevLinksWellFounded(t) ==
   LET g == Build(t)
